@@ -906,10 +906,23 @@ _LOCS = """            self.doflocs = np.array([
 _AS = "skfem/assembly/__init__.py"
 _ADI = "skfem/autodiff/__init__.py"
 MUTANTS = [
-    ("trilinear data stored with the axes reversed again",
-     ("skfem/assembly/form/trilinear_form.py",
-      "                    data[i, j, k] = self._kernel(",
-      "                    data[k, j, i] = self._kernel("), None),
+    ("trilinear data, index rows and local_shape laid out (u, v, w) again",
+     [("skfem/assembly/form/trilinear_form.py",
+       "        sz = (wbasis.Nbfun, vbasis.Nbfun, ubasis.Nbfun, nt)",
+       "        sz = (ubasis.Nbfun, vbasis.Nbfun, wbasis.Nbfun, nt)"),
+      ("skfem/assembly/form/trilinear_form.py",
+       "                    mats[i, j, k] = wbasis.element_dofs[i]\n"
+       "                    rows[i, j, k] = vbasis.element_dofs[j]\n"
+       "                    cols[i, j, k] = ubasis.element_dofs[k]\n"
+       "                    data[i, j, k] = self._kernel(",
+       "                    mats[k, j, i] = wbasis.element_dofs[i]\n"
+       "                    rows[k, j, i] = vbasis.element_dofs[j]\n"
+       "                    cols[k, j, i] = ubasis.element_dofs[k]\n"
+       "                    data[k, j, i] = self._kernel("),
+      ("skfem/assembly/form/trilinear_form.py",
+       "            (wbasis.Nbfun, vbasis.Nbfun, ubasis.Nbfun),\n        )",
+       "            (ubasis.Nbfun, vbasis.Nbfun, wbasis.Nbfun),\n        )")],
+     "C19-L1"),
     ("tolocal adds facet matrices with a fancy-index +=",
      ("skfem/assembly/form/coo_data.py",
       "            np.add.at(out, basis.tind, local)",
@@ -966,10 +979,11 @@ MUTANTS = [
        "                    data[j, i, :] = self._kernel("),
       (_B, "            data[i, j] = self._kernel(", "            data[j, i] "
        "= self._kernel(")], "C19-L1"),
-    ("trilinear: local_shape in global (w, v, u) order",
+    ("trilinear: local_shape in (u, v, w) order",
      ("skfem/assembly/form/trilinear_form.py",
-      "            (ubasis.Nbfun, vbasis.Nbfun, wbasis.Nbfun),",
-      "            (wbasis.Nbfun, vbasis.Nbfun, ubasis.Nbfun),"), "C19-L1"),
+      "            (wbasis.Nbfun, vbasis.Nbfun, ubasis.Nbfun),\n        )",
+      "            (ubasis.Nbfun, vbasis.Nbfun, wbasis.Nbfun),\n        )"),
+     "C19-L1"),
     ("fromlocal flattens in Fortran order",
      ("skfem/assembly/form/coo_data.py",
       "data=np.moveaxis(local, 0, -1).flatten('C'),",
